@@ -30,7 +30,18 @@ def c13_ok (op : String) (answers : List GAns) (hdr err : String) : Option Strin
     if !answers.isEmpty && answers.all (fun a => a == .valid 60 60) then some "c13_error_iff_no_valid" else
     if op == "byheight" && answers.any (fun a => match a with | .valid _ _ => true | _ => false) then some "c13_error_iff_no_valid" else none
 
+/-- every trusted peer was blocked by the client earlier: an error or a genuine header, never a panic or zero-with-nil -/
+def evalC13AllBlocked (outs : List String) : Verdict :=
+  match kv? outs "hdr", kv? outs "err" with
+  | some hdr, some err =>
+    if err == "CRASH" then .prop "c13_no_panic" "Get/GetByHeight with every trusted peer blocked" else
+    if hdr == "zero" && err == "nil" then .prop "c13_never_zero_nil" "all trusted peers blocked" else
+    if hdr != "zero" && err != "nil" then .prop "c13_header_xor_error" s!"hdr={hdr} err={err}" else
+    if hdr != "zero" && hdr != "valid" then .prop "c13_only_valid_answers" s!"hdr={hdr}" else .ok s!"allblocked-{hdr}"
+  | _, _ => .bad "C13 allblocked"
+
 def evalC13 (ins outs : List String) : Verdict :=
+  if kv? ins "kind" == some "allblocked" then evalC13AllBlocked outs else
   match kv? ins "op", kv? ins "answers", (kv? ins "order").bind natList?, kv? outs "hdr", kv? outs "err" with
   | some op, some answers, some order, some hdr, some err =>
     match (answers.splitOn ",").mapM gansOf? with
